@@ -651,3 +651,15 @@ def twin_re_escape(interp, func, args, kwargs):
 
 DEFAULT['re_finditer'] = twin_re_finditer
 DEFAULT['re_escape'] = twin_re_escape
+
+
+def twin_re_groups(interp, func, args, kwargs):
+    from . import regex_model
+    pattern, s, how = args
+    m = regex_model._run(pattern, s, 0, how)
+    if m is None:
+        return None
+    return tuple(m.group(i) for i in range(0, m.ngroups + 1))
+
+
+DEFAULT['re_groups'] = twin_re_groups
